@@ -40,7 +40,7 @@ Input space (seeded; deterministic for a given seed)
   mom: mean 10^[-8,8] x shape 10^[-5,7] (variance = mean^2 / shape);   quick 33 x 25, thorough 65 x 49.
   kl : (shape 10^[-6,8] x rate 10^[-6,6]) turned into exact (mean, mean log) by mpmath, plus free pairs with
        Jensen gap log(mean) - meanlog in 10^[-9,6]; both sides of the short-cut threshold alpha = 1e4.
-  iqr: quantile pairs {(.25,.75),(.05,.95),(.025,.975),(.4,.6),(.1,.5),(.3,.9)} x true shape 10^[-2, 4.5] x scale
+  iqr: quantile pairs {(.25,.75),(.05,.95),(.025,.975),(.4,.6),(.1,.5),(.3,.9)} x true shape 10^[-2, 4.2] x scale
        10^{-6,0,6} x max_shape {1000,100,10,2}, inputs are exact quantiles of that gamma (so capped and uncapped
        answers are both known) plus free ratios x2/x1 in 10^[1e-6.., 6]; x2 == x1.  Shapes below 1e-2 are excluded
        because the lower quantile underflows double precision (0.25^(1/shape)).
@@ -66,8 +66,24 @@ mp.dps = 40
 
 # =========================================================================================== oracle helpers
 def _P(a, x):
-    """regularised lower incomplete gamma"""
-    return mpmath.gammainc(a, 0, x, regularized=True)
+    """regularised lower incomplete gamma P(a, x).  mpmath.gammainc for moderate shapes; for large shapes (where mpmath's
+    hypergeometric summation gives up) the all-positive series  x^a e^-x / Gamma(a+1) * sum_n x^n / ((a+1)...(a+n))."""
+    a, x = mpf(a), mpf(x)
+    if a < 500:
+        return mpmath.gammainc(a, 0, x, regularized=True)
+    term = mpf(1)
+    tot = mpf(1)
+    n = 0
+    eps = mpf(10) ** (-(mp.dps + 5))
+    while True:
+        n += 1
+        term *= x / (a + n)
+        tot += term
+        if term < eps * tot and x < a + n:
+            break
+        if n > 5_000_000:
+            raise RuntimeError("oracle: incomplete gamma series did not converge")
+    return tot * mp.exp(a * mp.log(x) - x - mpmath.loggamma(a + 1))
 
 
 def gamma_quantile(a, q):
@@ -343,7 +359,7 @@ def fit_iqr(rep, approx, rng, thorough, worst):
     if not thorough:
         qpairs = qpairs[:4]
     for qi, (q1, q2) in enumerate(qpairs):
-        for k, ls in enumerate(np.linspace(-2, 4.5 if thorough else 3.7, nsh)):
+        for k, ls in enumerate(np.linspace(-2, 4.2 if thorough else 3.7, nsh)):
             al = float(10.0 ** (ls + rng.uniform(-0.05, 0.05)))
             y1, y2 = gamma_quantile(al, q1), gamma_quantile(al, q2)
             scale = [1e-6, 1.0, 1e6][(k + qi) % 3]
@@ -377,7 +393,7 @@ def run(req, rep):
     rep.space = ("_digamma/_trigamma on a jittered log lattice over [1e-8,1e8] incl. both neighbours of every series cut-off; "
                  "_betaln on a log grid over [1e-8,1e8]^2; approximate_gamma_mom on mean 10^[-8,8] x shape 10^[-5,7]; "
                  "approximate_gamma_kl on exact (mean, mean log) of gamma(shape 10^[-6,8], rate 10^[-6,6]) and free Jensen gaps "
-                 "10^[-9,6]; approximate_gamma_iqr on exact quantiles of gamma(shape 10^[-2,4.5]) x 6 quantile pairs x 4 caps x 3 "
+                 "10^[-9,6]; approximate_gamma_iqr on exact quantiles of gamma(shape 10^[-2,4.2]) x 6 quantile pairs x 4 caps x 3 "
                  "scales, free ratios and x2 == x1; invalid inputs; oracle mpmath at 40 digits")
     rep.bound = ("thorough: 6400 + 61 points (psi), 129x129 (betaln), 65x49 (mom), 123x13 + 183 (kl), 6x(53x4+26) (iqr)" if thorough
                  else "quick: 769 + 61 points (psi), 49x49 (betaln), 33x25 (mom), 53x7 + 93 (kl), 4x(20x2+8) (iqr)")
